@@ -203,7 +203,15 @@ func (n *ProcessorNode) handleProcessedRecord(ctx context.Context, msg *Message,
 		}
 		return nil
 	case sdk.ErrorRecord:
-		if err := msg.Nack(v.Error, n.ID()); err != nil {
+		reason := v.Error
+		if reason == nil {
+			// An error record must always carry an error: it is the nack
+			// reason, and a nil reason reads as "no failure" further down (a
+			// disabled DLQ would drop and ack the record, an enabled one
+			// dereferences it).
+			reason = cerrors.New("processor returned an error record without an error")
+		}
+		if err := msg.Nack(reason, n.ID()); err != nil {
 			return cerrors.FatalError(cerrors.Errorf("error executing processor: %w", err))
 		}
 		return nil
